@@ -82,32 +82,74 @@ func (e *Engine) hasLemmas(o *Oblig) bool {
 }
 
 func (e *Engine) smtTextV(o *Oblig, extra string, tail string, dropLemmas bool) string {
-	var sb strings.Builder
-	sb.WriteString("(set-option :produce-models true)\n(set-logic ALL)\n")
-	if e.ar.mode == ModeInt {
-		sb.WriteString(intPrelude())
-	}
-	sb.WriteString(e.idxPrelude())
+	var body strings.Builder
 	for _, d := range e.decls[:o.NDecl] {
-		sb.WriteString(d)
-		sb.WriteByte('\n')
+		body.WriteString(d)
+		body.WriteByte('\n')
 	}
 	for _, a := range e.assumps[:o.NAssump] {
 		if dropLemmas && a.Tag == "lemma" {
 			continue
 		}
-		sb.WriteString("(assert ")
-		sb.WriteString(a.T.S)
-		sb.WriteString(")\n")
+		body.WriteString("(assert ")
+		body.WriteString(a.T.S)
+		body.WriteString(")\n")
 	}
 	if o.WantSat {
-		fmt.Fprintf(&sb, "(assert %s)\n(assert %s)\n", o.Guard.S, o.Goal.S)
+		fmt.Fprintf(&body, "(assert %s)\n(assert %s)\n", o.Guard.S, o.Goal.S)
 	} else {
-		fmt.Fprintf(&sb, "(assert %s)\n(assert (not %s))\n", o.Guard.S, o.Goal.S)
+		fmt.Fprintf(&body, "(assert %s)\n(assert (not %s))\n", o.Guard.S, o.Goal.S)
 	}
-	sb.WriteString(extra)
+	body.WriteString(extra)
+	text := body.String()
+	var sb strings.Builder
+	sb.WriteString("(set-option :produce-models true)\n(set-logic ALL)\n")
+	// helper definitions and their (quantified) axioms only when the query mentions them, so that
+	// quantifier-free queries stay quantifier-free and failed obligations come back sat with a model
+	sb.WriteString(e.preludeFor(text))
+	sb.WriteString(text)
 	sb.WriteString("(check-sat)\n")
 	sb.WriteString(tail)
+	return sb.String()
+}
+
+func (e *Engine) preludeFor(text string) string {
+	var sb strings.Builder
+	if e.ar.mode == ModeInt {
+		if strings.Contains(text, "(tdiv ") || strings.Contains(text, "(trem ") {
+			sb.WriteString("(define-fun tdiv ((a Int) (b Int)) Int (ite (>= a 0) (ite (> b 0) (div a b) (- (div a (- b)))) (ite (> b 0) (- (div (- a) b)) (div (- a) (- b)))))\n")
+			sb.WriteString("(define-fun trem ((a Int) (b Int)) Int (- a (* b (tdiv a b))))\n")
+		}
+		if strings.Contains(text, "(pow2 ") {
+			sb.WriteString("(declare-fun pow2 (Int) Int)\n(assert (= (pow2 0) 1))\n(assert (forall ((k Int)) (! (=> (> k 0) (= (pow2 k) (* 2 (pow2 (- k 1))))) :pattern ((pow2 k)))))\n")
+		}
+		for _, w := range []int{8, 16, 32, 64} {
+			for _, f := range []string{"band", "bor", "bxor", "bandnot"} {
+				name := fmt.Sprintf("%s%d", f, w)
+				if !strings.Contains(text, "("+name+" ") {
+					continue
+				}
+				fmt.Fprintf(&sb, "(declare-fun %s (Int Int) Int)\n", name)
+				switch f {
+				case "band":
+					fmt.Fprintf(&sb, "(assert (forall ((a Int) (b Int)) (! (=> (and (>= a 0) (>= b 0)) (and (>= (%s a b) 0) (<= (%s a b) a) (<= (%s a b) b))) :pattern ((%s a b)))))\n", name, name, name, name)
+				case "bor":
+					fmt.Fprintf(&sb, "(assert (forall ((a Int) (b Int)) (! (=> (and (>= a 0) (>= b 0)) (and (>= (%s a b) a) (>= (%s a b) b) (<= (%s a b) (+ a b)))) :pattern ((%s a b)))))\n", name, name, name, name)
+				}
+			}
+		}
+	}
+	s := e.ar.idxSort()
+	if strings.Contains(text, "(idx ") {
+		plus := "+"
+		if e.ar.mode == ModeBV {
+			plus = "bvadd"
+		}
+		fmt.Fprintf(&sb, "(declare-fun idx (%s %s) %s)\n(assert (forall ((a %s) (b %s)) (! (= (idx a b) (%s a b)) :pattern ((idx a b)))))\n", s, s, s, s, s, plus)
+	}
+	if strings.Contains(text, "(mark ") {
+		fmt.Fprintf(&sb, "(declare-fun mark (%s) Bool)\n(assert (forall ((a %s)) (! (mark a) :pattern ((mark a)))))\n", s, s)
+	}
 	return sb.String()
 }
 
